@@ -43,6 +43,7 @@ type cAct struct {
 	ID    int      `json:"id"`
 	M     string   `json:"m"`
 	Dup   bool     `json:"dup"`
+	Cb    *bool    `json:"cb"` // apppublish: false = the application passes no completion callback
 }
 type cStep struct {
 	A    cAct    `json:"a"`
@@ -219,12 +220,16 @@ func runClientBehaviour(steps []cStep, res *Result, dev bool) (string, string) {
 			m.SetPayload(brokerPayload("x"))
 			m.SetQoS(byte(a.Q))
 			var d string
+			var oc service.OnCompleteFunc = r.onComplete(a.R)
+			if a.Cb != nil && !*a.Cb {
+				oc = nil
+			}
 			if a.Q == 0 {
-				if err := r.cl.Publish(m, r.onComplete(a.R)); err != nil {
+				if err := r.cl.Publish(m, oc); err != nil {
 					d = "call failed: " + err.Error()
 				}
 			} else {
-				d = call(func() error { return r.cl.Publish(m, r.onComplete(a.R)) })
+				d = call(func() error { return r.cl.Publish(m, oc) })
 			}
 			if d != "" {
 				return where + ": " + d, tagOrInfra(d, "C12")
